@@ -3325,6 +3325,9 @@ func elemType(t types.Type) types.Type {
 // octets: encoding/binary fixed-width accessors.
 func (ex *Exec) intrinsic(s *astate, name string, args []AVal, x *ssa.Call) (AVal, bool) {
 	const pre = "encoding/binary."
+	if r, ok := ex.readerIntrinsic(s, name, args, x); ok {
+		return r, true
+	}
 	if !strings.HasPrefix(name, pre) {
 		return AVal{}, false
 	}
@@ -3774,4 +3777,97 @@ func (ex *Exec) copyAtFill(s *astate, d, src AVal, et types.Type) (AVal, bool) {
 	}
 	s.mem.bump(d.Path + "[")
 	return AVal{K: AInt, Bits: n}, true
+}
+
+// readerIntrinsic: a bytes.Reader over a slice of known length is a cursor into that slice:
+// bytes.NewReader(b) makes one at position 0; binary.Read(r, order, &x) / binary.Read(r, order, sl)
+// moves the next octets into x (big- or little-endian for 16/32/64-bit integers) resp. into the
+// known-length slice sl and advances; with too few octets left it returns an error and moves
+// nothing. Reader.Len is what is left. Readers over slices of unknown length stay opaque.
+func (ex *Exec) readerIntrinsic(s *astate, name string, args []AVal, x *ssa.Call) (AVal, bool) {
+	switch name {
+	case "bytes.NewReader":
+		if len(args) == 1 && args[0].K == ASlice && args[0].Lo >= 0 && args[0].Len >= 0 {
+			s.serial++
+			obj := fmt.Sprintf("reader#%d", s.serial)
+			s.mem.cells[obj+".$src"] = args[0]
+			s.mem.cells[obj+".$pos"] = AVal{K: AInt, Bits: constBits(0, 64)}
+			return AVal{K: APtr, Path: obj, NonNil: true}, true
+		}
+	case "bytes.Reader.Len":
+		if len(args) == 1 && args[0].K == APtr {
+			if src, ok := s.mem.cells[args[0].Path+".$src"]; ok {
+				pos, _ := s.mem.cells[args[0].Path+".$pos"].ConstVal()
+				return AVal{K: AInt, Bits: constBits(uint64(src.Len-int(pos)), 64)}, true
+			}
+		}
+	case "encoding/binary.Read":
+		if len(args) != 3 || args[0].K != APtr {
+			return AVal{}, false
+		}
+		src, ok := s.mem.cells[args[0].Path+".$src"]
+		if !ok {
+			return AVal{}, false
+		}
+		p64, _ := s.mem.cells[args[0].Path+".$pos"].ConstVal()
+		pos := int(p64)
+		big := true
+		if oi, ok := x.Call.Args[1].(*ssa.MakeInterface); ok {
+			if ld, ok := oi.X.(*ssa.UnOp); ok {
+				if g, ok := ld.X.(*ssa.Global); ok && strings.Contains(g.Name(), "Little") {
+					big = false
+				}
+			}
+		}
+		u8 := types.Typ[types.Uint8]
+		octet := func(i int) AVal { return s.mem.Load(fmt.Sprintf("%s[%d]", src.Path, src.Lo+pos+i), u8) }
+		eof := AVal{K: AUnknown, Path: "io.ErrUnexpectedEOF", NonNil: true}
+		mi, isMI := x.Call.Args[2].(*ssa.MakeInterface)
+		if !isMI {
+			return AVal{}, false
+		}
+		switch dt := mi.X.Type().Underlying().(type) {
+		case *types.Pointer:
+			if args[2].K != APtr || args[2].Sym {
+				return AVal{}, false
+			}
+			w := widthOf(dt.Elem())
+			if w <= 0 || w%8 != 0 {
+				return AVal{}, false
+			}
+			n := w / 8
+			if pos+n > src.Len {
+				return eof, true
+			}
+			bits := make(BitVec, w)
+			for i := 0; i < n; i++ {
+				o := octet(i)
+				if o.K != AInt || len(o.Bits) != 8 {
+					return AVal{}, false
+				}
+				at := i
+				if big {
+					at = n - 1 - i
+				}
+				copy(bits[8*at:8*at+8], o.Bits)
+			}
+			s.mem.Store(args[2].Path, AVal{K: AInt, Bits: bits}, dt.Elem())
+			s.mem.cells[args[0].Path+".$pos"] = AVal{K: AInt, Bits: constBits(uint64(pos+n), 64)}
+			return AVal{K: ANil}, true
+		case *types.Slice:
+			if args[2].K != ASlice || args[2].Lo < 0 || args[2].Len < 0 || widthOf(dt.Elem()) != 8 {
+				return AVal{}, false
+			}
+			n := args[2].Len
+			if pos+n > src.Len {
+				return eof, true
+			}
+			for i := 0; i < n; i++ {
+				s.mem.Store(fmt.Sprintf("%s[%d]", args[2].Path, args[2].Lo+i), octet(i), u8)
+			}
+			s.mem.cells[args[0].Path+".$pos"] = AVal{K: AInt, Bits: constBits(uint64(pos+n), 64)}
+			return AVal{K: ANil}, true
+		}
+	}
+	return AVal{}, false
 }
